@@ -40,6 +40,23 @@ CLAIMS = {
   note="Assumes the virtual socket layer (vsock.c) behind channel->sock_funcs, reference containers, parser replaced by a "
        "recorder; buffers <= 12 bytes, chunks <= 5 bytes; read window reduced to 16 by the guarded hook "
        "CARES_VERIF_READ_WINDOW; the truncation (TC) retry rule is checked in C05's acceptance harness once built."),
+ "C17": dict(
+  text="Bounded model checking (CBMC) of the whole real ares_cookie.c: ONE ares_cookie_apply or ONE ares_cookie_validate from "
+       "an ARBITRARY cookie state (all four states, arbitrary cookies/timestamps/addresses), symbolic clock, transport, "
+       "request OPT presence and response cookie (absent / every length 0..41 / BADCOOKIE), compared field by field with a "
+       "reference transition function written from RFC 7873 and the file's implementation plan, plus direct assertions of the "
+       "property's sentences. Timers are integers, so the 120 s / 300 s / 1 day periods are crossed symbolically.",
+  design="DESIGN.md §4 C17",
+  note="Assumes the abstract 1-slot COOKIE option store for the record layer, ares_requeue_query as a recorder, the cookie "
+       "state invariant listed in the evidence (re-established by every step: inductive)."),
+ "C08": dict(
+  text="Bounded model checking (CBMC) of the real ares_qcache.c kernels from ARBITRARY valid cache states: insert (rcode/TC "
+       "filter, min-TTL / SOA-minimum lifetime, max_ttl cap, zero cases), fetch (strict expiry boundary, TTL decrement), "
+       "flush; the real key builder on request pairs differing in one attribute; the real record code for every TTL "
+       "accessor under ttl_decrement; the real ares_servers_update / reinit paths for flush-on-change.",
+  design="DESIGN.md §4 C08",
+  note="Assumes the abstract record interface and reference containers listed in the evidence; <= 3 RRs per response, "
+       "<= 2 pre-existing cache entries, names <= the stated lengths; question count 1."),
 }
 NA = {}
 for i in range(1, 21):
